@@ -1982,14 +1982,30 @@ class ExpressionEvaluator(Parser):
                 value = constant.token[2:]
             except KeyError:
                 value = constant.token
+                # A leading zero denotes an octal constant
+                if value.startswith("0"):
+                    base = 8
 
             # Strip suffix (if present)
+            # Longer suffixes must be listed before their own suffixes
             suffix = None
             suffixes = [
                 "ull",
+                "uLL",
+                "Ull",
                 "ULL",
+                "llu",
+                "llU",
+                "LLu",
+                "LLU",
                 "ul",
+                "uL",
+                "Ul",
                 "UL",
+                "lu",
+                "lU",
+                "Lu",
+                "LU",
                 "ll",
                 "LL",
                 "u",
